@@ -219,6 +219,9 @@ fn shrink_cov(c: &CovCase) -> Vec<CovCase> {
 }
 
 pub fn run_c08_files(tier: &str, rng: &mut Rng, model: &Model, rep: &mut Report, corpus_lines: &[String], work: &str) {
+    if sharded() {
+        return;
+    }
     rep.rules.push("file level: counting input (same file or an alternate one) + records + k + bin size/count + raw/normalised + delimiter + threads 1..16 + memory setting (below 1 = flush per record and many counting chunks, 1..6 = flush once); kmers.vectors compared byte for byte with the rows of the Lean model computed from the Lean counts table of the counting input; non-trivial = at least two records with windows".into());
     let mut counter = 0u64;
     let mut run_one = |c: &CovCase, section: &str, rep: &mut Report| {
